@@ -186,7 +186,20 @@ func Entails(facts, goal Formula) bool {
 
 // Satisfiable reports whether f has a model (bounded like Entails; unknown => true).
 func Satisfiable(f Formula) bool {
-	return !Entails(f, False{})
+	names := Atoms(f)
+	if len(names) > MaxAtoms {
+		return true
+	}
+	a := make(map[string]bool, len(names))
+	for mask := 0; mask < 1<<len(names); mask++ {
+		for i, n := range names {
+			a[n] = mask&(1<<i) != 0
+		}
+		if eval(f, a) {
+			return true
+		}
+	}
+	return false
 }
 
 // Equivalent decides a <-> b under the given background facts.
